@@ -22,6 +22,7 @@
   Kind B (exact commutative-semiring arithmetic, `[CommSemiring K] [ExactArith K]`):
   * `fval_eq_eval` / `fval_eq_eval_outputs` - `fvalNode (ofNet net) (idx i) = evalNode net i` for every neuron, and at
     output position `p` (fast index `nSensor + p`).
+  * `all_solvers_fresh` - the same for fresh instances after `LoadSensors(xs)` on both (Proofs/LoadAgree.lean).
   * `all_solvers_eval` / `all_solvers_outputs` - standard `ForwardSteps`, fast `ForwardSteps`, fast `RecursiveSteps`
     and fast `Relax` (run for at least rank-of-the-output steps) all leave `evalNode` at every output.
   Helper lemmas: Proofs/FastFFAll.lean, Proofs/Translation.lean.
@@ -29,6 +30,7 @@
 import GoNeat.Props.C12
 import GoNeat.Proofs.FastFFAll
 import GoNeat.Proofs.Translation
+import GoNeat.Proofs.LoadAgree
 import GoNeat.Proofs.Exact
 
 namespace GoNeat.C12
@@ -325,6 +327,35 @@ theorem all_solvers_outputs (net : Net K) (σ : Nat → K → Option K) (lvl : N
     simp only [List.getElem_map, List.getElem_range]
     rw [a1, a3]
 
+/-- **As the property words it (Kind B).**  Fresh network and fresh fast solver built from it, the same input vector
+    loaded into both with `LoadSensors` (`InputsCanon`: `net.inputs` holds exactly the sensors, input-type nodes in
+    node-table order - then both solvers assign `xs[k]` to the same node): all four paths yield `evalNode` at every
+    output. -/
+theorem all_solvers_fresh (net : Net K) (σ : Nat → K → Option K) (lvl : Nat → Nat) (hff : FFNet net lvl = true)
+    (hwf : Fast.TransWF net lvl = true) (hin : Fast.InputsCanon net = true) (fn : Fast.FastNet K)
+    (hofn : Fast.ofNet net = .ok fn)
+    (hσ : ∀ (i : Nat) (nd : NNodeS K), net.nodes[i]? = some nd → nd.isNeuron = true → ∀ x, (σ nd.act x).isSome = true)
+    (xs : List K) (hxs : xs.length = (Fast.idxOfKind net Kind.input).length)
+    (hload : (Solver.loadSensors net xs (Solver.init net)).2 = none)
+    (k : Nat) (hk1 : 1 ≤ k) (hk : ∀ o ∈ net.outputs, lvl o ≤ k) (m : Nat) (delta : K)
+    (p : Nat) (hp : p < net.outputs.length) :
+    (Fast.loadSensors fn xs (Fast.init fn)).2 = none ∧
+    ∃ e, evalNode net σ (fun i => (Solver.get (Solver.loadSensors net xs (Solver.init net)).1 i).activation)
+        (lvl (net.outputs[p]) + 1) (net.outputs[p]) = some e ∧
+      (Solver.get (Solver.forwardSteps net σ (k : Int) (Solver.loadSensors net xs (Solver.init net)).1).1
+        (net.outputs[p])).activation = e ∧
+      Fast.getW (Fast.forwardSteps fn σ (k : Int) (Fast.loadSensors fn xs (Fast.init fn)).1).1.signals (fn.nSensor + p) = e ∧
+      Fast.getW (Fast.recursiveSteps fn σ (Fast.loadSensors fn xs (Fast.init fn)).1).1.signals (fn.nSensor + p) = e ∧
+      (lvl (net.outputs[p]) ≤ Fast.relaxCount fn σ delta m (Fast.loadSensors fn xs (Fast.init fn)).1 →
+        Fast.getW (Fast.relax fn σ (m : Int) delta (Fast.loadSensors fn xs (Fast.init fn)).1).1.signals (fn.nSensor + p) = e) := by
+  have hw := Fast.TransWF_props net lvl hwf
+  have hF := Fast.ofNet_facts net hw fn hofn
+  obtain ⟨g1, g2, g3, g4, g5, g6, g7⟩ := Fast.load_agree net hw hin fn hF xs hxs hload
+  obtain ⟨hl, hc⟩ := Solver.loadSensors_loaded net xs (Solver.init net) hload
+  refine ⟨g1, all_solvers_eval net σ lvl hff hwf fn hofn hσ _ (by rw [hl]; simp [Solver.init]) (fun i nd hi hs => ?_)
+    (fun j nd hj hkb => by rw [g6 j nd hj hkb, ExactArith.one_eq]) _ g2 g3 (fun i _ _ => g4 i) g7 k hk1 hk m delta p hp⟩
+  exact hc i (g5 i nd hi hs) (by simp [Solver.isSensorAt, hi, hs]) (by simpa [Solver.init] using Fast.valid_lt net i nd hi)
+
 end Exact
 
 /-! ## non-vacuity (exact `Int` scalar; `ffNet`, `ffLvl` from Props/C12.lean: bias, input, hidden, output, a skip
@@ -340,6 +371,7 @@ def ffFast : Fast.FastNet Int :=
 
 example : (match Fast.ofNet ffNet with | .ok fn => sameFast fn ffFast | .error _ => false) = true := by decide
 example : Fast.TransWF ffNet ffLvl = true := by decide
+example : Fast.InputsCanon ffNet = true := by decide
 example : Fast.NoDupConn ffFast := by decide
 /-- the transported ranking: output (index 2) rank 2, hidden (index 3) rank 1 -/
 example : (List.range 4).map (Fast.lvlF ffNet ffLvl) = [0, 0, 2, 1] := by decide
